@@ -198,7 +198,7 @@ func init() {
 		ID:    "C11",
 		Level: "exploration",
 		Rule: "(1) every string of length <= 3 (quick) / <= 4 (thorough) over {a, Z, 1, ., -, _, /, \", *, &, {, }, space, é, line feed} in each of 26 grammar positions (names, identifiers, import, type, value, constructor, function, getter, decorator, @ / !value / !tagged arguments, scope keyword): verdict = hand-written recogniser, rejection names the offending key; " +
-			"(2) every token word of length <= 4 (quick) / <= 6 (thorough) over {&, *, \", a, B1, ., /, {}} in the 7 structured positions; (3) truth tables: creation rules (2^3 x 2), reserved getters, todo exemption; (4) every 1-, 2- (thorough: 3-) subset of 25 validation-stage defects and of 8 compile-stage defects: all reported in one run, each naming its key. non-trivial = string in the position's language boundary (rejected, or accepted with a non-identifier character); distinct = distinct (position, string)",
+			"(2) every token word of length <= 4 (quick) / <= 6 (thorough) over {&, *, \", a, B1, ., /, {}} in the 7 structured positions; (3) truth tables: creation rules (2^3 x 2), reserved getters, todo exemption, 17 primitive and 5 composite value kinds x 5 value positions; (4) every 1-, 2- (thorough: 3-) subset of 25 validation-stage defects and of 8 compile-stage defects: all reported in one run, each naming its key. non-trivial = string in the position's language boundary (rejected, or accepted with a non-identifier character); distinct = distinct (position, string)",
 		Assumptions: []string{
 			"the documented grammar is docs/*.md plus internal/pkg/regex/consts.go, re-implemented as hand-written scanners (no regexp)",
 			"stage-wise reading: decode errors abort a file; validation errors are all reported; compile errors are all reported; later stages may be masked",
@@ -588,6 +588,57 @@ func init() {
 						}
 					}
 				})
+			}
+			// primitive-only arguments: every primitive kind is accepted in every value position, every composite is rejected
+			{
+				kinds := []struct {
+					id string
+					v  any
+					ok bool
+				}{
+					{"int", 5, true}, {"negative", -3, true}, {"zero", 0, true}, {"int64-max", Raw("9223372036854775807"), true}, {"above-int64", Raw("9223372036854775808"), true}, {"uint64-max", Raw("18446744073709551615"), true},
+					{"int64-min", Raw("-9223372036854775808"), true}, {"float", 2.5, true}, {"float-exp", Raw("1e300"), true}, {"hex", Raw("0x1F"), true}, {"octal", Raw("0o17"), true},
+					{"true", true, true}, {"false", false, true}, {"null", nil, true}, {"tilde", Raw("~"), true}, {"string", "s", true}, {"empty-string", "", true},
+					{"list", Raw("[1]"), false}, {"empty-list", Raw("[]"), false}, {"map", Raw("{a: 1}"), false}, {"empty-map", Raw("{}"), false}, {"nested", Raw("[[1]]"), false},
+				}
+				for _, k := range kinds {
+					for _, pos := range []string{"param", "ctor", "call", "field", "decorator"} {
+						k, pos := k, pos
+						id := fmt.Sprintf("primitive/%s/%s", k.id, pos)
+						w.Case(id, func(c *C) {
+							cfg := c11base()
+							sv := Service{Name: "sut", Constructor: P("pk.New")}
+							switch pos {
+							case "param":
+								cfg.Params = append(cfg.Params, Param{"pv", k.v})
+							case "ctor":
+								sv.Args = []any{1, k.v}
+							case "call":
+								sv.Calls = []Call{{Method: "Set1", Args: []any{k.v, "x"}}}
+							case "field":
+								sv.Fields = []KV{{"F1", k.v}}
+							case "decorator":
+								sv.Tags = []Tag{{Name: "tg"}}
+								cfg.Decorators = []Decorator{{Tag: "tg", Decorator: "pk.Dec1", Args: []any{k.v}}}
+							}
+							cfg.Services = append(cfg.Services, sv)
+							files := []File{{"c.yaml", cfg.YAML()}}
+							br := w.Build(files)
+							c.Distinct("all", id)
+							c.Distinct("nontrivial", id)
+							if br.Panic != "" {
+								c.Violation("panic", "tool panicked ("+id+"):\n"+br.Panic, FilesMap(files), nil)
+								return
+							}
+							if k.ok && br.Exit != 0 {
+								c.Violation("primitive-rejected:"+k.id, fmt.Sprintf("a primitive value (%s) in position %s is rejected:\n%s", k.id, pos, strings.Join(ErrorLines(br.Out), "\n")), FilesMap(files), nil)
+							}
+							if !k.ok && br.Exit == 0 {
+								c.Violation("composite-accepted:"+k.id, fmt.Sprintf("a composite value (%s) in position %s is accepted", k.id, pos), FilesMap(files), nil)
+							}
+						})
+					}
+				}
 			}
 			multi("validate", c11defects(), "compiler.StepValidateInput:")
 			multi("compile", c11compileDefects(), "compiler.StepCompile")
